@@ -917,7 +917,7 @@ def root_key(prog, f):
     return f.key
 
 
-def r_bounds(ctx, view):
+def r_bounds(ctx, view, only=None):
     set_cursor_fields(view)
     prog = view.prog
     fx = view.fx
@@ -941,7 +941,7 @@ def r_bounds(ctx, view):
         return base if i == 0 else "%s#%d" % (base, i)
 
     for f in sorted(prog.fns.values(), key=lambda x: x.key):
-        if f.j.get("auto_derived"):
+        if f.j.get("auto_derived") or (only and not only(f)):
             continue
         rk = root_key(prog, f)
         shrink_prim = (f.key, "shrink-primitive") in RESIDUAL
@@ -1037,7 +1037,8 @@ def r_bounds(ctx, view):
                     ok, why = rb.valid(f, bi, args[pi - 1])
                     ob(f, t, k(f, "pre:%s:arg%d<len(inferred)" % (hk.split("::")[-1], pi)), ok,
                        "%s(%s): %s" % (hk.split("::")[-1], term_str(args[pi - 1])[:50], why), "precondition")
-    ctx.floor("R-BOUNDS", n, 120)
+    if not only:
+        ctx.floor("R-BOUNDS", n, 120)
     ctx.notes.append("R-BOUNDS obligation kinds: %s; inferred helper preconditions: %s" % (kinds, {k2: sorted(v) for k2, v in rb.inferred.items()}))
     return n
 
@@ -1127,6 +1128,10 @@ def arith_ok(rb, f, bi, t):
                 b = s["rv"]["b"]
                 a = s["rv"]["a"]
                 consts = [x for x in (a, b) if x["k"] == "const"]
+                if len(consts) == 2:
+                    vals = [const_int(("const", c["s"])) for c in consts]
+                    if 0 in vals and any(v for v in vals if v):
+                        return True, "divisor is the constant %d" % max(v for v in vals if v is not None)
                 if consts and any(const_int(("const", c["s"])) == 0 for c in consts):
                     other = [x for x in (a, b) if x["k"] != "const"]
                     if other:
@@ -1134,7 +1139,14 @@ def arith_ok(rb, f, bi, t):
                         ci = const_int(strip(v))
                         if ci:
                             return True, "divisor is the constant %d" % ci
-        return True, "divisor is a non-zero literal"
+                        try:
+                            ok1, why1 = rb.ge1(f, bi, v)
+                        except Exception:
+                            ok1, why1 = False, ""
+                        if ok1:
+                            return True, "divisor >= 1: " + why1
+                        return False, "the divisor %s is not a non-zero constant and nothing shows it is >= 1 (a size_of of a zero-sized type, a length, a hint .. may be 0)" % term_str(v)[:50]
+        return False, "division / remainder whose divisor could not be identified"
     cond = t["cond"]
     # find the checked operation feeding this assert
     opstmt = None
